@@ -441,6 +441,8 @@ class RangeDomain:
                 return Iter(reversed(a[0].items[a[0].pos:]))
             return TOP
         if n in ("iter", "iter_mut") and len(a) == 1:
+            if isinstance(a[0], Tup) and n == "iter" and a[0].items and all(isinstance(x, Adt) and isinstance(x.variant, str) and x.name in self.F.adts for x in a[0].items):
+                return Iter(list(a[0].items))          # a literal table of a crate-local enum: its entries as they are (the interpreter loop over it runs out)
             if isinstance(a[0], Tup):
                 return Iter([OPAQUE] * len(a[0].items))
             L = self.slice_len(ex, fr, args[0], term, 0)
@@ -578,7 +580,15 @@ class RangeDomain:
             if "int" in c:
                 return int(c["int"])
             if "bytes_hex" in c:
-                return Tup(list(bytes.fromhex(c["bytes_hex"])))
+                if re.fullmatch(r"\[u8; \d+\]", (c.get("ty") or "").strip()):
+                    return Tup(list(bytes.fromhex(c["bytes_hex"])))
+                # any other table: its elements as rustc evaluated them, when the fact file has them (one entry per element, not
+                # per byte); the interval analysis needs the length and the integer payloads
+                tree = self.F.const_tree(op["uneval_def"])
+                if isinstance(tree, tuple) and tree and tree[0] == "list":
+                    from core.absexec import _tree_value
+                    return _tree_value(tree)
+                return TOP
         if "promoted" in op:
             # `&CONST` promoted to a static: evaluate its (argument-free, literal) body once and hand out a reference to the value
             key = (op.get("uneval_def"), op["promoted"])
@@ -594,7 +604,7 @@ class RangeDomain:
                             v = rs[0][0]
                             if isinstance(v, Ref):
                                 v = deref_value(sub, v)
-                            if isinstance(v, (int, Rng)) and not isinstance(v, bool):
+                            if (isinstance(v, (int, Rng)) and not isinstance(v, bool)) or (isinstance(v, Tup) and len(v.items) <= 4096):
                                 cache[key] = v
                     except Exception:
                         pass
